@@ -196,6 +196,14 @@ pub struct SimEvent {
 }
 
 /// Helper function to convert a TriggerEvent to a usize for sorting purposes.
+#[cfg(feature = "verif")]
+impl SimEvent {
+    /// The private (bypass, replace) flags, for external verification tooling.
+    pub fn verif_flags(&self) -> (bool, bool) {
+        (self.bypass, self.replace)
+    }
+}
+
 fn event_to_usize(e: &TriggerEvent) -> usize {
     match e {
         // tunnel before normal before padding
